@@ -53,7 +53,7 @@ PROPS = {
                  RULE_LIB.replace('non-trivial when at least one compared fetch returns a series with a non-NaN value',
                                   'non-trivial when at least one fetch returns a series (shape observed)'),
                  'FetchFromArchive clamping, interval arithmetic, findBestArchive'),
-    'C05': entry(lambda rnd, n, thorough=False: gens_core.gen_c05(rnd, n, thorough) + gens_cli.gen_c05_cli(rnd, max(n // 10, 8), thorough), 200, 3000, RULE_LIB,
+    'C05': entry(lambda rnd, n, thorough=False: gens_core.gen_c05(rnd, n, thorough) + gens_cli.gen_c05_cli(rnd, max(n // 10, 8), thorough) + [{'id': 'c05-wait-%d' % i, 'lines': gens_concur.waitopen_lines(rnd), 'tags': {'layout': 'multipage-single', 'ops': {'waiting_opener': 1}}} for i in range(6)], 200, 3000, RULE_LIB,
                  'Create/Sync/Close/Open at the slot-view level; filebuffer page cache in Model/FileBuf.v'),
     'C14': entry(gens_codec.gen_c14, 500, 8000,
                  'objects of every codec kind (boundary and random field values, NaN payloads, infinities, signed zero) generated from one '
